@@ -70,6 +70,7 @@ def rand_pack(rng, cls=None, allow_iterative=True, allow_prefix_ver=True, allow_
     o["ver"] = rng.choice(vers)
     o["iterative"] = bool(allow_iterative and rng.random() < 0.15)
     o["plus"] = rng.random() < 0.35
+    o["swap"] = rng.random() < 0.3
     return o
 
 
